@@ -1,7 +1,31 @@
 import Whawty.Model.Basic
 import Whawty.Model.Sasl
+import Whawty.Model.SaslServer
+import Whawty.Model.Pam
 import Driver.Proto
 open Whawty Whawty.Proto
+
+def unknownMsg : Bytes := [117, 110, 107, 110, 111, 119, 110]   -- "unknown"
+
+def srvBehaviour (cs : List Bytes) (reg : Bytes) (ok : Bool) (msg : Bytes) (err : Option Bytes) :
+    SaslServer.Behaviour :=
+  SaslServer.handle true cs
+    (fun q => if q.login = reg then ⟨ok, msg, err⟩ else ⟨false, unknownMsg, none⟩) []
+
+def sCalls (l : List Sasl.Request) : String :=
+  "cb=" ++ sList (l.flatMap fun q => [q.login, q.password, q.service, q.realm])
+
+def pOptBytes (s : String) : Option (Option Bytes) :=
+  if s == "-" then some none else (pBytes s).map some
+
+/-- Server script of the PAM harness -> what the client observes (module timeout 1 s). -/
+def pamEvents (script : String) : List Pam.SrvEv :=
+  ((script.splitOn ";").filterMap fun a =>
+    if a.startsWith "W" then (ofHex (a.drop 1).toString).map Pam.SrvEv.data
+    else if a.startsWith "S" then
+      (if ((a.drop 1).toString.toNat?.getD 0) ≥ 1000 then some Pam.SrvEv.timeout else none)
+    else if a == "C" || a == "X" then some Pam.SrvEv.eof
+    else none).filter (fun e => e ≠ Pam.SrvEv.data [])
 
 /-- Model prediction for one command; `none` = malformed command. -/
 def predict (cmd : List String) : Option String :=
@@ -26,6 +50,33 @@ def predict (cmd : List String) : Option String :=
     match Sasl.Response.decodeChunked cs with
     | some r => pure s!"ok {sBool r.result} {sBytes r.message}"
     | none => pure "err"
+  | ["sasl.srv", cs, reg, ok, msg, err] => do
+    let b := srvBehaviour (← pList cs) (← pBytes reg) (← pBool ok) (← pBytes msg) (← pOptBytes err)
+    let dec := Sasl.Request.decodeChunked (← pList cs)
+    let reply := match b.replies with
+      | [r] => if dec.isNone then "NO*" else sBytes r
+      | [] => "none"
+      | _ => "many"
+    pure s!"{sCalls b.cbCalls} {reply} {sBool b.closed}"
+  | ["sasl.srv.abandoned", cs, reg, ok, msg, err] => do
+    let b := srvBehaviour (← pList cs) (← pBytes reg) (← pBool ok) (← pBytes msg) (← pOptBytes err)
+    pure (sCalls b.cbCalls)
+  | ["pam.auth", u, p, opts, script] => do
+    let os := opts.splitOn ","
+    let pw ← pBytes p
+    let inp : Pam.Input := {
+      user := ← pBytes u,
+      useFirstPass := os.contains "use_first_pass",
+      tryFirstPass := os.contains "try_first_pass",
+      stack := if os.contains "stackpw" then some pw else none,
+      conv := if os.contains "nopw" then none
+              else if os.contains "stackpw" then some "wrong-conversation-password".toUTF8.toList
+              else some pw,
+      connectOk := !(script.startsWith "N"),
+      server := pamEvents script }
+    let (rc, sent) := Pam.authenticate inp
+    -- the bytes the server saw are only predicted when its script starts by reading them
+    if script.startsWith "R" || sent.isEmpty then pure s!"{rc} {sBytes sent}" else pure s!"{rc} *"
   | ["pam.enc", u, p] => do
     pure s!"ok {sBytes (Sasl.pamEncode (← pBytes u) (← pBytes p))}"
   | _ => none
@@ -43,7 +94,9 @@ def handle (line : String) : String :=
     match rest with
     | [] => "M " ++ m
     | _ :: real =>
-      if " ".intercalate real == m then "A" else "D " ++ m
+      let r := " ".intercalate real
+      let agree := if m.endsWith "*" then r.startsWith (m.dropEnd 1).toString else r == m
+      if agree then "A" else "D " ++ m
 
 partial def loop (h : IO.FS.Stream) (out : IO.FS.Stream) : IO Unit := do
   let line ← h.getLine
